@@ -126,8 +126,37 @@ def two_chain_cases():
     return out
 
 
+def check_delimiter(ctx=None):
+    """The result writes CURIEs as the input does: every URI still compresses to the same identifier under the record's
+    possibly new name - joined by the input's delimiter."""
+    fails = []
+    for d in ("/", "::", "_"):
+        for mapping in ({}, {"a": "n"}, {"zz": "n"}, {"a1": "n"}, {"a": "n", "b": "a"}, {"a": "b1"}):
+            conv = Converter([to_record(r) for r in BASES[0]], delimiter=d)
+            where = f"remap_curie_prefixes(base 0 with delimiter {d!r}, {mapping})"
+            try:
+                res = remap_curie_prefixes(conv, mapping)
+            except Exception as e:  # noqa
+                if type(e).__name__ not in DOCUMENTED:
+                    fails.append((f"undocumented-exception/{type(e).__name__}", f"{where}: {type(e).__name__}"))
+                continue
+            by_uri = {r.uri_prefix: r.prefix for r in res.records}
+            for r in BASES[0]:
+                want = by_uri.get(r.uri_prefix, "?") + d + "#7"
+                got = res.compress(r.uri_prefix + "#7")
+                if got != want:
+                    fails.append(("result-writes-curies-with-another-delimiter", f"{where}: compress({r.uri_prefix + '#7'!r}) = {got!r}, expected {want!r}"))
+                for p_ in r.prefixes:
+                    if res.expand(p_ + d + "1") is None:
+                        fails.append(("prefix-lost/plain-remapping", f"{where}: expand({p_ + d + '1'!r}) is None although {p_!r} was known before"))
+            if ctx is not None:
+                ctx.count("transitions")
+                ctx.count("delimiter_checks")
+    return fails
+
+
 def units(tier, seed):
-    us = [{"kind": "long-chain"}]
+    us = [{"kind": "long-chain"}, {"kind": "delimiter"}]
     us += [{"kind": "cases", "gen": "wide", "part": i, "of": 4} for i in range(4)]
     us += [{"kind": "cases", "gen": "two-chain", "part": i, "of": 8} for i in range(8)]
     for b in range(len(BASES)):
@@ -333,6 +362,10 @@ def run_unit(unit, ctx):
         for sig, msg in check_long_chain(ctx):
             ctx.violation("C11/" + sig, msg, {"kind": "long-chain"})
         return
+    if unit.get("kind") == "delimiter":
+        for sig, msg in check_delimiter(ctx)[:2]:
+            ctx.violation("C11/" + sig, msg, {"kind": "delimiter"})
+        return
     if unit.get("kind") == "cases":
         cases = wide_cases() if unit["gen"] == "wide" else two_chain_cases()
         for i, case in enumerate(cases):
@@ -361,6 +394,8 @@ def run_unit(unit, ctx):
 def replay(case):
     if case.get("kind") == "long-chain":
         return [("C11/" + s, m) for s, m in check_long_chain(None)]
+    if case.get("kind") == "delimiter":
+        return [("C11/" + s, m) for s, m in check_delimiter(None)]
     if "after_base" in case:   # the same dictionary was applied to another converter with the same vocabulary just before
         check(case["after_base"], case["pairs"], True, None)
     return [("C11/" + s, m) for s, m in check(case["base"], case["pairs"], case.get("twice", False), None)]
